@@ -174,6 +174,10 @@ def handle (fields : List String) : String :=
     let tbl := refBuild ([] : List (Str × Nat)) evs
     let firsts := evs.map (fun p => if refLookup tbl p.1 == some p.2 then "1" else "0")
     encListS (tbl.map (·.1)) ++ ";" ++ ",".intercalate firsts
+  | ["wf", canon, mx] =>
+    match Json.parseCanon canon with
+    | some (.arr toks) => if wfTokens toks mx.toNat! then "ok" else "bad"
+    | _ => "unparsable"
   | ["ping"] => "pong"
   | _ => "bad-op"
 
